@@ -1239,6 +1239,11 @@ fn main() {
             other => { child_status = format!("child failed: {other:?}"); c.fail("cross-process:spawn".into(), child_status.clone(), format!("seed={seed}")); }
         }
     }
+    if !child {
+        let mut k = String::with_capacity(c.nontrivial.len() * 17);
+        for x in &c.nontrivial { k.push_str(&format!("{:016x}\n", x)); }
+        std::fs::write(format!("{}/keys.txt", a.out), k).unwrap();
+    }
     let mut rep = String::from("{");
     rep.push_str(&format!("\"evaluations\":{},\"distinct_nontrivial\":{},", c.evaluations, c.nontrivial.len()));
     rep.push_str(&format!("\"rule\":{},", jstr("non-trivial = value of a composite type (any constructor of the universe applied to at least one type) with a non-empty write stream; distinct by (type, canonical value, seed)")));
